@@ -162,6 +162,22 @@ func (c *Ctx) ContributionRules(prop string) {
 						last := ch[len(ch)-1].Sub
 						wantVal := last.Res(mu.Value)
 						sessVal := last.Res(sess)
+						// a recording helper shared by received and own contributions: on a chain where the value recorded is the
+						// instance's own (computed, not a parameter of a protocol method nor a reply of the sender) nothing is to check
+						if len(ch) > 1 {
+							own := true
+							switch rv := wantVal.(type) {
+							case *ssa.Parameter:
+								own = false
+							case *ssa.Extract:
+								if call, ok := rv.Tuple.(*ssa.Call); ok && call.Call.IsInvoke() && namedIs(call.Call.Value.Type(), pkgSender, "Service") {
+									own = false
+								}
+							}
+							if own && !dependsOnParam(wantVal, 0) {
+								return nil
+							}
+						}
 						sameSess := func(base ssa.Value, s2 Subst) bool { return base != nil && s2.Res(base) == sessVal }
 						return func(a *an.Atom, s2 Subst) bool {
 							if a == nil {
